@@ -69,7 +69,9 @@ BinScene(v) ==
 
 (* ======================= soundscripts ==================================== *)
 \* a pitch of (PITCH_NORM, PITCH_NORM) is the number 100 twice and is not written
-SndDecay(v) == [v EXCEPT !.pitch = IF @ = <<"PITCH_NORM", "PITCH_NORM">> THEN <<"100.0", "100.0">> ELSE @]
+\* (it is the number 100 twice); a sound with any operator stack is a version 2 sound
+SndDecay(v) == [v EXCEPT !.pitch = IF @ = <<"PITCH_NORM", "PITCH_NORM">> THEN <<"100.0", "100.0">> ELSE @,
+                         !.force = @ \/ \E k \in 1..3 : v.stacks[k] # <<>>]
 
 (* ======================= particle systems ================================ *)
 \* As implemented, the reader also lists the DMX element's own name among the
